@@ -11,6 +11,7 @@ CONSTANTS
   MaxRestart = 1
   MaxCheck = 2
   MaxReorg = 0
+  Sources <- Src5
   Race = FALSE
   Fix <- CodeFix
   Mut = ""
